@@ -58,7 +58,7 @@ def _deriv_cases(ctx, stride):
 def _ident_cases(ctx, stride):
     from checks import c08
     consts = {"NF": 1, "KeyKind": '"key"', "Level": '"inner"', "MaxRows": 3, "MaxScopes": 2,
-              "RowKinds": '{"k", "f", "i", "p"}'}
+              "RowKinds": '{"k", "f", "i", "p"}', "IdVer": '"1.0"'}
     r = ctx.tlc("Identity", "Identity.cfg", constants=consts, tag="pool-ident", workers=4)
     out = []
     for i, rec in enumerate(r.json_records()):
